@@ -61,11 +61,11 @@ func Run(seed int64, goroutines, perG int, buggyShared bool) []Event {
 	sigs := make([][]crypto.Signature, len(blsSK))
 	for i, sk := range blsSK {
 		for j, m := range msgs {
-			i, j, sk, m := i, j, sk, m
+			i, j, m := i, j, m
 			s, _ := sk.Sign(m, shared)
 			sigs[i] = append(sigs[i], s)
 			ops = append(ops, op{key: fmt.Sprintf("bls.Sign/%d/%d", i, j), args: [][]byte{m}, run: func(h hash.Hasher) string {
-				s, err := sk.Sign(m, h)
+				s, err := blsSK[i].Sign(m, h)
 				return dig(s) + fmt.Sprint(err == nil)
 			}})
 			sig := append([]byte(nil), s...)
@@ -128,19 +128,19 @@ func Run(seed int64, goroutines, perG int, buggyShared bool) []Event {
 	// ECDSA with per-goroutine hashers: Sign is randomised, its result is "the signature verifies"
 	for i, sk := range ecSK {
 		for j, m := range msgs {
-			i, j, sk, m := i, j, sk, m
+			i, j, m := i, j, m
 			fixed, _ := sk.Sign(m, hash.NewSHA3_256())
 			f := append([]byte(nil), fixed...)
 			ops = append(ops, op{key: fmt.Sprintf("ecdsa.Sign/%d/%d", i, j), own: true, args: [][]byte{m}, run: func(h hash.Hasher) string {
-				s, err := sk.Sign(m, h)
-				ok, _ := sk.PublicKey().Verify(s, m, h)
+				s, err := ecSK[i].Sign(m, h)
+				ok, _ := ecSK[i].PublicKey().Verify(s, m, h)
 				return fmt.Sprint(ok, err == nil, len(s))
 			}})
 			ops = append(ops, op{key: fmt.Sprintf("ecdsa.Verify/%d/%d", i, j), own: true, args: [][]byte{m, f}, run: func(h hash.Hasher) string {
-				ok, err := sk.PublicKey().Verify(f, m, h)
+				ok, err := ecSK[i].PublicKey().Verify(f, m, h)
 				bad := append([]byte(nil), f...)
 				bad[5] ^= 1
-				nok, _ := sk.PublicKey().Verify(bad, m, h)
+				nok, _ := ecSK[i].PublicKey().Verify(bad, m, h)
 				return fmt.Sprint(ok, nok, err == nil)
 			}})
 		}
@@ -152,6 +152,18 @@ func Run(seed int64, goroutines, perG int, buggyShared bool) []Event {
 			h = hash.NewSHA3_256()
 		}
 		events = append(events, Event{E: "seq", Key: o.key, Result: o.run(h), ArgsUnchanged: true})
+	}
+	// the concurrent phase runs on FRESH key objects equal to the ones used above (re-decoded from their encodings):
+	// whatever a key object computes lazily on first use then happens under concurrency
+	for i := range blsSK {
+		skb, pkb := blsSK[i].Encode(), blsPK[i].Encode()
+		blsSK[i], _ = crypto.DecodePrivateKey(crypto.BLSBLS12381, skb)
+		blsPK[i], _ = crypto.DecodePublicKey(crypto.BLSBLS12381, pkb)
+	}
+	for i := range ecSK {
+		a := ecSK[i].Algorithm()
+		ecSK[i], _ = crypto.DecodePrivateKey(a, ecSK[i].Encode())
+		ecSK[i].PublicKey() // not in the property's list: forced once, sequentially
 	}
 	var mu sync.Mutex
 	var wg sync.WaitGroup
